@@ -98,11 +98,22 @@ VARIABLES
                 \*   repository: outcome of the most recent exchange; whether
                 \*   the list of published objects it shows is what the
                 \*   server holds for it; whether that list is empty
-    kst         \* [AllCA -> outcome] the parent's report about the child's
+    kst,        \* [AllCA -> outcome] the parent's report about the child's
                 \*   most recent request
+    \* the trust anchor as the (slow) parent of Top: the proxy queues what Top
+    \* asks for, the signer answers the whole queue in one cycle, Top fetches
+    \* each answer with its next synchronisation (taproxy.rs, tasigner/,
+    \* manager.rs ta_slow_rfc6492_request)
+    taq,        \* SUBSET ReqKinds: Top's requests queued at the proxy
+    tar,        \* SUBSET ReqKinds: responses waiting at the proxy for Top
+    taiss,      \* the keys of Top the TA has certified, by their role in Top's
+                \*   class ("pend": the pending key of a roll, certified but the
+                \*   certificate not yet fetched by Top)
+    tapub       \* ... whose certificate the TA publishes
 
 vars == <<exists, gone, parent, hasp, ent, cstate, iss, sus, rc, rcv, req, routes,
-          pub, tasks, pubknown, pst, rst, kst>>
+          pub, tasks, pubknown, pst, rst, kst, taq, tar, taiss, tapub>>
+tavars == <<taq, tar, taiss, tapub>>
 
 Prefix(r) == r[1]
 
@@ -163,6 +174,8 @@ TypeOK ==
     /\ pst \in [AllCA -> [last : Outcomes, ents : SUBSET Res]]
     /\ rst \in [AllCA -> [last : Outcomes, same : BOOLEAN, empty : BOOLEAN]]
     /\ kst \in [AllCA -> Outcomes]
+    /\ taq \in SUBSET ReqKinds /\ tar \in SUBSET ReqKinds
+    /\ taiss \in SUBSET (Roles \cup {"pend"}) /\ tapub \in SUBSET (Roles \cup {"pend"})
 
 Init ==
     /\ exists = [c \in AllCA |-> c = Top]
@@ -186,6 +199,7 @@ Init ==
     /\ pst = [c \in AllCA |-> NoPst]
     /\ rst = [c \in AllCA |-> NoRst]
     /\ kst = [c \in AllCA |-> "none"]
+    /\ taq = {} /\ tar = {} /\ taiss = {"cur"} /\ tapub = {"cur"}
 
 SP(c) == <<"sync_parent", c>>
 SR(c) == <<"sync_repo", CaOf[c]>>             \* one per CA
@@ -398,13 +412,15 @@ AspaDel(c, cust) ==
 
 \* ca_keyroll_init (max age 0): keys.rs / certauth.rs process_keyroll_initiate
 \* (every resource class of the CA that is in the active state)
+\* (Top's synchronisations with the trust anchor are not part of the
+\* modelled queue: see TopSync)
 RollInit(c) ==
-    /\ IsCa(c) /\ exists[c] /\ c # Top
+    /\ IsCa(c) /\ exists[c]
     /\ LET S == {s \in SlotsOf(c) : rc[s] = "active"}
        IN  /\ S # {}
            /\ rc' = [s \in AllCA |-> IF s \in S THEN "roll_pending" ELSE rc[s]]
            /\ req' = [s \in AllCA |-> IF s \in S THEN req[s] \cup {"pend"} ELSE req[s]]
-           /\ tasks' = tasks \cup {SP(s) : s \in S}  \* CertificateRequested
+           /\ tasks' = tasks \cup {SP(s) : s \in S \ {Top}}  \* CertificateRequested
     /\ UNCHANGED <<pubknown, pst, rst, kst, exists, gone, parent, hasp, ent, cstate, iss, sus, rcv, routes,
                    pub>>
 
@@ -432,7 +448,7 @@ CanActivate(c) ==
 RollSlots(c) == {s \in SlotsOf(c) : rc[s] = "roll_new"}
 RelabelAll(S, K) == {IF k[1] \in S THEN <<k[1], NewRole(k[2]), k[3]>> ELSE k : k \in K}
 RollActivate(c) ==
-    /\ IsCa(c) /\ exists[c] /\ c # Top
+    /\ IsCa(c) /\ exists[c]
     /\ LET S == RollSlots(c)
        IN  /\ S # {} /\ \A s \in S : CanActivate(s)
            /\ rc' = [s \in AllCA |-> IF s \in S THEN "roll_old" ELSE rc[s]]
@@ -440,7 +456,7 @@ RollActivate(c) ==
            /\ iss' = [s \in AllCA |-> IF s \in S THEN Rotate(iss[s]) ELSE iss[s]]
            /\ sus' = [s \in AllCA |-> IF s \in S THEN Rotate(sus[s]) ELSE sus[s]]
            /\ req' = [s \in AllCA |-> IF s \in S THEN {"rev"} ELSE req[s]]
-           /\ tasks' = tasks \cup {SP(s) : s \in S} \cup {SR(c)}   \* KeyRollActivated
+           /\ tasks' = tasks \cup {SP(s) : s \in S \ {Top}} \cup {SR(c)}   \* KeyRollActivated
            \* what is at the publication server is now, by role, the staging
            \* key's manifest as the current key's and the products under the
            \* old key (and the parent's published certificates for the CA's
@@ -450,7 +466,7 @@ RollActivate(c) ==
                        THEN [cur |-> pub[d].new, new |-> FALSE, old |-> pub[d].cur,
                              vrps |-> {}, kids |-> {},
                              ovrps |-> pub[d].vrps, okids |-> pub[d].kids]
-                       ELSE IF d \in {parent[s] : s \in S}
+                       ELSE IF d \in {parent[s] : s \in S \ {Top}}
                        THEN [pub[d] EXCEPT !.kids = RelabelAll(S, @),
                                            !.okids = RelabelAll(S, @)]
                        ELSE pub[d]]
@@ -800,6 +816,72 @@ RepoSyncAll ==
     /\ UNCHANGED <<pubknown, pst, rst, kst, exists, gone, parent, hasp, ent, cstate, iss, sus, rc, rcv, req,
                    routes, pub>>
 
+---------------------------------------------------------------------------
+(* The trust anchor as Top's parent.  Top's holdings are fixed, so the only *)
+(* exchanges that matter are those of a key roll: the certificate for the   *)
+(* new key and the revocation of the old one.  Every request is answered    *)
+(* "scheduled for processing" (1104) and queued at the proxy, the signer    *)
+(* processes the queue in one cycle, Top gets each answer at its next       *)
+(* synchronisation -- exactly once.  The TA's own record of Top is not      *)
+(* modelled beyond that: iss[Top] mirrors rcv[Top].                         *)
+
+RotateRoles(S) == {NewRole(x) : x \in S}
+PendToNew(S) == IF "pend" \in S THEN (S \ {"pend"}) \cup {"new"} ELSE S
+
+\* Task::SyncParent for Top (not part of the modelled queue: it is also the
+\* periodic refresh; without an open request it changes nothing)
+TopSync ==
+    /\ exists[Top]
+    /\ LET answered == req[Top] \cap tar
+           fresh == (req[Top] \ tar) \ taq
+           doRev == "rev" \in answered /\ rc[Top] = "roll_old"
+           pendToNew == "pend" \in answered /\ rc[Top] = "roll_pending"
+           rc1 == IF doRev THEN "active"
+                  ELSE IF pendToNew THEN "roll_new" ELSE rc[Top]
+           rcv1 == [rcv[Top] EXCEPT
+                      !["old"] = IF doRev THEN NoRes ELSE @,
+                      !["new"] = IF pendToNew THEN TopRes ELSE @]
+       IN  /\ rc' = [rc EXCEPT ![Top] = rc1]
+           /\ rcv' = [rcv EXCEPT ![Top] = rcv1]
+           /\ iss' = [iss EXCEPT ![Top] = rcv1]
+           /\ req' = [req EXCEPT ![Top] = @ \ answered]
+           /\ tar' = tar \ answered            \* delivered exactly once
+           /\ taq' = taq \cup fresh
+           /\ tasks' = IF doRev \/ pendToNew THEN tasks \cup {SR(Top)} ELSE tasks
+           \* (the pending key becomes the new key)
+           /\ taiss' = IF pendToNew THEN PendToNew(taiss) ELSE taiss
+           /\ tapub' = IF pendToNew THEN PendToNew(tapub) ELSE tapub
+    /\ UNCHANGED <<pubknown, pst, rst, kst, exists, gone, parent, hasp, ent, cstate, sus,
+                   routes, pub>>
+
+\* Task::SyncTaProxySignerIfPossible: the signer answers everything queued
+TaCycle ==
+    /\ tar' = tar \cup taq
+    /\ taq' = {}
+    /\ taiss' = (taiss \cup (IF "pend" \in taq THEN {"pend"} ELSE {}))
+                 \ (IF "rev" \in taq THEN {"old"} ELSE {})
+    /\ UNCHANGED <<pubknown, pst, rst, kst, exists, gone, parent, hasp, ent, cstate, iss, sus, rc,
+                   rcv, req, routes, pub, tasks, tapub>>
+
+\* Task::SyncRepo for the TA
+TaRepo ==
+    /\ tapub' = taiss
+    /\ UNCHANGED <<pubknown, pst, rst, kst, exists, gone, parent, hasp, ent, cstate, iss, sus, rc,
+                   rcv, req, routes, pub, tasks, taq, tar, taiss>>
+
+\* the activation of Top's new key rotates the roles of what the TA has
+\* certified and publishes
+TopRollActivate ==
+    /\ RollActivate(Top)
+    /\ taiss' = RotateRoles(taiss) /\ tapub' = RotateRoles(tapub)
+    /\ UNCHANGED <<taq, tar>>
+
+\* something is left to do between Top and the trust anchor
+TaWork == taq # {} \/ (req[Top] \ taq) # {} \/ tapub # taiss
+
+TaApi == (RollInit(Top) /\ UNCHANGED tavars) \/ TopRollActivate
+TaTask == TopSync \/ TaCycle \/ TaRepo
+
 ApiNext ==
     \/ \E c \in Sub, R \in SUBSET Res : AddCa(c, ParentOf[c], R)
     \/ "parents" \in Ops /\ \E s \in Sub :
@@ -821,7 +903,10 @@ ApiNext ==
 
 TaskNext == \E c \in AllCA : Task(c)
 
-Next == ApiNext \/ TaskNext
+\* (the actions above do not mention the trust anchor's variables)
+ApiNextF == (ApiNext /\ UNCHANGED tavars) \/ ("taroll" \in Ops /\ TaApi)
+TaskNextF == (TaskNext /\ UNCHANGED tavars) \/ ("taroll" \in Ops /\ TaTask)
+Next == ApiNextF \/ TaskNextF
 
 Spec == Init /\ [][Next]_vars
 
@@ -842,11 +927,11 @@ Entry(c, x) ==
                  ELSE NoEntry
 
 RECURSIVE ValidKey(_, _)
-CertRes(c, x) == IF c = Top THEN (IF x = "cur" THEN TopRes ELSE NoRes)
+CertRes(c, x) == IF c = Top THEN (IF x \in tapub THEN TopRes ELSE NoRes)
                  ELSE Entry(c, x).res
 \* the certificate of key <<c, x>> is accepted by a relying party
 ValidKey(c, x) ==
-    IF c = Top THEN x = "cur"
+    IF c = Top THEN x \in tapub
     ELSE LET e == Entry(c, x)
              p == parent[c]
          IN  /\ e # NoEntry
@@ -990,6 +1075,17 @@ C04_PubKeysMatch ==
     \A c \in AllCA : Ex(c) /\ Synced(c) =>
         /\ pub[c].new = (rc[c] = "roll_new")
         /\ pub[c].old = (rc[c] = "roll_old")
+\* C15 (on the CA's side): a request of Top is at most in one place -- queued
+\* at the proxy or answered and waiting --, and only what Top still asks
+\* for; so every request gets exactly one response, delivered once.
+TaExactlyOnce ==
+    /\ taq \cap tar = {}
+    /\ (taq \cup tar) \subseteq req[Top]
+
+\* C01 / C04: once nothing is left to do between Top and the trust anchor,
+\* Top's current key has a published certificate
+C01_TopValid == ~TaWork => "cur" \in tapub
+
 \* C19: what the status reports say.  That the reported outcome is the one
 \* of the most recent exchange, and the entitlements those last returned, is
 \* what the actions above say (pst, rst, kst are assigned in the step of the
